@@ -391,7 +391,7 @@ func (w *hpWorld) sendConnect(b *memnet.Conn, list []string) error {
 	return pbio.NewDelimitedWriter(b).WriteMsg(m)
 }
 
-func (w *hpWorld) readMsg(b *memnet.Conn, rd pbio.Reader, what string) bool {
+func (w *hpWorld) readMsg(rd pbio.Reader, what string) bool {
 	var m pb.HolePunch
 	if err := rd.ReadMsg(&m); err != nil {
 		w.rec(hpEv{Kind: "wire", Note: "remote reads " + what, Err: err.Error()})
@@ -422,13 +422,13 @@ func (w *hpWorld) sendOdd(b *memnet.Conn, kind string) {
 }
 
 // the remote answers a coordination stream the service opened
-func (w *hpWorld) remoteResponder(b *memnet.Conn, s hpStreamScript, n int) {
+func (w *hpWorld) remoteResponder(b *memnet.Conn, s hpStreamScript) {
 	defer b.Close()
 	if s.Reply == "close-before-read" {
 		return
 	}
 	rd := pbio.NewDelimitedReader(b, 1<<16)
-	if !w.readMsg(b, rd, "CONNECT") {
+	if !w.readMsg(rd, "CONNECT") {
 		return
 	}
 	time.Sleep(time.Duration(s.DelayMs) * time.Millisecond)
@@ -437,7 +437,7 @@ func (w *hpWorld) remoteResponder(b *memnet.Conn, s hpStreamScript, n int) {
 		if w.sendConnect(b, s.List) != nil {
 			return
 		}
-		w.readMsg(b, rd, "SYNC")
+		w.readMsg(rd, "SYNC")
 	case "close":
 		return
 	case "silent":
@@ -462,7 +462,7 @@ func (w *hpWorld) remoteInitiator(b *memnet.Conn, in *hpInbound) {
 	default:
 		w.sendOdd(b, in.First)
 	}
-	if !w.readMsg(b, rd, "CONNECT") {
+	if !w.readMsg(rd, "CONNECT") {
 		return
 	}
 	time.Sleep(time.Duration(in.SyncDelayMs) * time.Millisecond)
@@ -495,6 +495,7 @@ func hpRun(t *testing.T, sc *hpScenario) (res hpResult) {
 		for _, a := range sc.PS {
 			w.ps[hpPartner] = append(w.ps[hpPartner], ma.StringCast(a))
 		}
+		w.initial = true
 		for _, spec := range sc.Init {
 			w.addConn(hpPartner, spec, nil)
 		}
@@ -503,6 +504,7 @@ func hpRun(t *testing.T, sc *hpScenario) (res hpResult) {
 			w.addConn(hpBystander, "limited-in", nil)
 			w.ps[hpBystander] = []ma.Multiaddr{ma.StringCast("/ip4/8.8.4.4/tcp/4001")}
 		}
+		w.initial = false
 		self := hpRelayAddrs()[0] // our own address behind the relay
 		listen := func() []ma.Multiaddr { // a fresh slice each time: the service filters it in place
 			pub := ma.StringCast("/ip4/7.7.7.7/tcp/4001")
@@ -890,7 +892,7 @@ func holepunchPart(t *testing.T, r *run.R) {
 		"hole-punching part: a conn that opens or closes at the same virtual instant as an observation is treated as concurrent with it (never a violation)")
 	n := r.Pick(4000, 100000)
 	if os.Getenv("VERIF_RACE") == "1" {
-		n = r.Pick(600, 6000)
+		n = r.Pick(2000, 20000)
 	}
 	var sampleMu sync.Mutex
 	sampled := map[string]bool{}
